@@ -22,6 +22,7 @@ import struct
 from fractions import Fraction
 
 import vlib
+from props import c01
 
 LEVEL = "proof"
 RULE = ("scale families (65536..~200000 rows, thorough also ~18 million rows crossing 2^24) given by generator parameters; small "
@@ -33,7 +34,8 @@ RULE = ("scale families (65536..~200000 rows, thorough also ~18 million rows cro
 THEOREMS = ["C04_safe_subsample", "C04_safe", "C04_all_written", "C04_garbage_indep", "C04_garbage_indep_subsample",
             "C04_quota", "C04_sampled_indices", "C04_prefix_rows", "C04_values", "C04_positions", "C04_counts",
             "C04_sample_nonempty", "C04_entry_spec", "C04_outside_irrelevant", "C04_entry_indices", "C04_finite",
-            "C04_prefix_refuted", "C04_prefix_unsafe", "C04_check_sound", "C04_model_ok", "C04_outside_hyp_sound"]
+            "C04_prefix_refuted", "C04_prefix_unsafe", "C04_check_sound", "C04_model_ok", "C04_outside_hyp_sound",
+            "C04_subsample_reads", "C04_outside_selfpair_refuted", "C04_entry_agrees_full"]
 # over R (Flocq): may use the standard-library Reals axioms; every other theorem must be closed under the global context
 FLOAT_THEOREMS = ["C04_float_product_exact", "C04_float_quotient_floor", "C04_float_final_space_size", "C04_float_quota"]
 HEADER = ("From Coq Require Import List ZArith QArith.\nFrom Outrank Require Import MI.Subsample.\n"
@@ -77,33 +79,14 @@ def py_sampled(X, r):
 
 
 def eval_float(t):
-    """float64 meaning of the model's term structure: (score, sum of |summands|).  TRUSTED mirror of the code's
-    arithmetic: full = -sum p ln p over class counts / n; per stratum -(cnt/n) * (k/cnt) * ln(k/cnt) over the
-    non-zero counts; result = r * (full - cond) or r * (bg - cond) with the correction flag."""
+    """float64 meaning of the model's term structure: (score, sum of |summands|).  The ONE trusted float mirror of the
+    MI properties is tools/props/c01.py eval_float (it mirrors Model.eval_R term by term; C04_entry_agrees_full proves that
+    the C04 encoding without the ratio IS the C01 encoding when nothing is subsampled); the subsampled estimator only
+    multiplies by the ratio: result = r * core."""
     n, classes, strata, corr, (num, den) = t
     r = num / den
-    acc = 0.0
-    tot = 0.0
-    if not corr:
-        for k in classes:
-            p = k / n
-            v = -p * math.log(p)
-            acc += v
-            tot += abs(v)
-    for cnt, real, spoof in strata:
-        w = cnt / n
-        for k in real:
-            p = k / cnt
-            v = -w * p * math.log(p)
-            acc -= v
-            tot += abs(v)
-        if corr:
-            for k in spoof:
-                p = k / cnt
-                v = -w * p * math.log(p)
-                acc += v
-                tot += abs(v)
-    return r * acc, r * tot
+    core, sabs = c01.eval_float((n, classes, strata, corr))
+    return r * core, r * sabs
 
 
 # ---------------------------------------------------------------------------------------------------------
@@ -214,8 +197,16 @@ def pick_poison(rng, Y, X):
 def gen_Y2(rng, Y, X, idx, c):
     n = len(X)
     outside = sorted(set(range(n)) - set(idx))
-    if not outside or (c and Y == X):
+    if not outside:
         return None
+    if c and Y == X:
+        # the corner where the clause "unsampled values do not matter" FAILS (C04_outside_selfpair_refuted): one or a few
+        # unsampled cells change, the self-pair test np.array_equal(X, Y2) switches off and the correction on; the harness
+        # then holds the second score to the model's term structure for (Y2, X), which differs from the one for (Y, X)
+        Y2 = list(Y)
+        for i in rng.sample(outside, rng.randint(1, min(3, len(outside)))):
+            Y2[i] = Y[i] + 1 + rng.randrange(3)
+        return Y2
     Y2 = list(Y)
     top = max(Y) + 2
     chosen = outside if rng.random() < 0.5 else rng.sample(outside, rng.randint(1, len(outside)))
@@ -325,12 +316,23 @@ def coq_expr(case, arrays, nparrays):
     else:
         nys, nxs = nparrays if nparrays is not None else ([], [])
         npchk = "C04_check k (%s, %s)" % (vlib.zlist(nys), vlib.zlist(nxs))
+    if needs_model2(case):
+        m2 = "C04_model (%s, X, (%d # %d)%%Q, %s)" % (vlib.zlist(case["Y2"]), fr.numerator, fr.denominator, vlib.blit(case["c"]))
+    else:
+        m2 = "(1, @None Z)"
     return ("let Y := %s in let X := %s in let k := (Y, X, (%d # %d)%%Q, %s) in "
             "(C04_model k, C04_check k (%s, %s), outside_hyp k %s, Z.of_nat (quota X (%d # %d)%%Q), "
-            "Z.of_nat (length (sampled_indices X (%d # %d)%%Q)), %s)" % (
+            "Z.of_nat (length (sampled_indices X (%d # %d)%%Q)), %s, %s)" % (
                 vlib.zlist(case["Y"]), vlib.zlist(case["X"]), fr.numerator, fr.denominator, vlib.blit(case["c"]),
                 vlib.zlist(ys), vlib.zlist(xs), vlib.zlist(y2), fr.numerator, fr.denominator,
-                fr.numerator, fr.denominator, npchk))
+                fr.numerator, fr.denominator, npchk, m2))
+
+
+def needs_model2(case):
+    """the self-pair test answers differently for Y and Y2 and the flag is on: outside-irrelevance does not apply, the
+    second score is held to the model of (Y2, X) instead"""
+    y2 = case.get("Y2")
+    return y2 is not None and bool(case["c"]) and ((case["Y"] == case["X"]) != (y2 == case["X"]))
 
 
 def num(x):
@@ -418,6 +420,21 @@ def judge(case, runs, val):
                              "run %s (poison %s): score %.9g with Y, %.9g with Y2 (equal on all sampled rows); model %.9g" % (
                                  m, poison_of(case, m), s, s2, mscore)))
                 break
+    if case.get("Y2") is not None and not hyp and len(val) >= 9 and val[7] == 0 and val[8] is not None:
+        # self-pair corner: the model predicts a DIFFERENT term structure for (Y2, X); the code must follow it
+        m2score, tot2 = eval_float(val[8][1])
+        tol2 = 8 * EPS32 * (tot2 + 1e-6)
+        info.update(selfpair_corner=True, model_score_Y2=m2score, model_terms_differ=jsonable(val[8]) != jsonable(mterms))
+        for m, r in sorted(good.items()):
+            if "score2" not in r:
+                continue
+            s2 = num(r["score2"])
+            if not (math.isfinite(s2) and abs(s2 - m2score) <= tol2):
+                viol.append(("self-pair corner: with Y2 differing from Y = X in unsampled rows only, the score follows the model "
+                             "of (Y2, X) (self-pair test made on the full vectors)",
+                             "run %s (poison %s): score with Y2 %.9g, model for (Y2, X) %.9g, tolerance %.3g" % (
+                                 m, poison_of(case, m), s2, m2score, tol2)))
+                break
     info["impl_scores"] = {m: r.get("score") for m, r in good.items()}
     return viol, info
 
@@ -459,7 +476,7 @@ def evaluate(cases, fresh=(), max_respawn=4, crosscheck=None):
     vals = {}
     if small:
         for i, sh, v in zip(small, shared, balanced_eval(exprs, [len(cases[i]["X"]) for i in small])):
-            vals[i] = tuple(v[:6]) + ((v[2],) if sh else (v[6],))     # same arrays => same C04_check verdict
+            vals[i] = tuple(v[:6]) + ((v[2],) if sh else (v[6],)) + tuple(v[7:9])     # same arrays => same C04_check verdict
     out = []
     bad = []
     for i, (c, runs, nr) in enumerate(zip(cases, res, npres)):
@@ -625,6 +642,9 @@ def check(run, replay):
         hist["correction_on"] += bool(c["c"])
         if c.get("Y2") is not None:
             hist["outside_checked" if e["info"]["hyp"] else "outside_hypothesis_false"] += 1
+            if e["info"].get("selfpair_corner"):
+                hist["selfpair_corner_checked"] = hist.get("selfpair_corner_checked", 0) + 1
+                hist["selfpair_corner_terms_differ"] = hist.get("selfpair_corner_terms_differ", 0) + bool(e["info"].get("model_terms_differ"))
         hist["fresh_interpreter_runs"] += "F" in e["runs"]
         hist["runs"] += sum(1 for r in e["runs"].values() if r and not r.get("skipped"))
         hist["skipped_runs"] += sum(1 for r in e["runs"].values() if r and r.get("skipped"))
